@@ -8,7 +8,6 @@ PROP = dict(
         level_text="Randomised property test: sequences and projections are sampled by rapid; each case is checked exactly (byte identity of type values and value bytes; per-path identity for projections).",
         level_note="Trusted: oracle.Key, the harness's own record-path walker. Not covered: vcache.Cache (storage-engine fetch and object reuse across queries), concurrent Fetch calls on one object.",
         technique="property-based testing (rapid) with statistics-shaped generators",
-        env=dict(VERIF_KNOWN="/var/tmp/c0103-scratch/known-fixed.json"),
         tests=[
             dict(name="TestVNGRoundTrip", quick=(8, 300), thorough=(16, 4000)),
             dict(name="TestVNGNullInUnion", quick=(2, 150), thorough=(4, 1500)),
